@@ -563,6 +563,10 @@ func (fr *Frame) exec(ins ssa.Instruction) {
 		fr.vals[x] = fr.val(x.X)
 	case *ssa.MakeInterface:
 		v := fr.val(x.X)
+		if _, isTP := types.Unalias(x.X.Type()).(*types.TypeParam); isTP && v.Sort == SIface {
+			fr.vals[x] = v // already an opaque boxed value
+			return
+		}
 		tag := c.V.typeTag(x.X.Type())
 		fr.vals[x] = app(SIface, "mkiface", tInt(int64(tag)), c.box(v))
 	case *ssa.TypeAssert:
@@ -1107,6 +1111,17 @@ func (fr *Frame) execTypeAssert(x *ssa.TypeAssert) {
 	v := fr.val(x.X)
 	var ok, res Term
 	at := x.AssertedType
+	if _, isTP := types.Unalias(at).(*types.TypeParam); isTP && c.sortOf(at) == SIface {
+		// assertion to a type parameter: the dynamic type is unknown, success unconstrained
+		okc := c.fresh("tp_assert_ok", SBool)
+		if x.CommaOk {
+			fr.tuples[x] = []Term{ite(okc, v, c.zero(at)), okc}
+			return
+		}
+		fr.oblige("safety.assert", "", okc, x.Pos(), "type assertion to type parameter")
+		fr.vals[x] = v
+		return
+	}
 	if types.IsInterface(at) {
 		ok = fr.implements(v, at)
 		res = v
